@@ -40,7 +40,7 @@ function buildCase(rng) {
   const lateDecls = [];
   let usesLate = false;
   const spec = { props: [] };
-  const dyn = rng.pick(['static', 'static', 'static', 'identifier', 'spread', 'computedIdentKey', 'computedCallKey', 'empty', 'computedGetterKey']);
+  const dyn = rng.pick(['static', 'static', 'static', 'identifier', 'spread', 'computedIdentKey', 'computedCallKey', 'empty', 'computedGetterKey', 'computedTemplateKey']);
   for (const k of keys) {
     const fnTyped = rng.bool(0.35);
     const form = rng.pick(['none', 'keyvalue', 'keyvalue', 'keyvalue', 'getter', 'method', 'asyncMethod', 'shorthand', 'generatorMethod']);
@@ -101,13 +101,14 @@ function buildCase(rng) {
     const target = spec.props[0];
     decls.push(`const KEYNAME = ${JSON.stringify(target.key)};`, 'const keyOf = () => KEYNAME;');
     const others = entries.filter((e) => !new RegExp(`^(get |async )?(${target.key.replace('$', '\\$')}|["'\\[]+${target.key.replace('$', '\\$')}["'\\]]+)[:( ]|^${target.key.replace('$', '\\$')}$`).test(e));
-    defaultSrc = dyn === 'computedGetterKey' ? `{ ${[...others, `get [KEYNAME]() { return ${target.fnTyped ? 'helperFn' : 'V0'}; }`].join(', ')} }` : `{ ${[...others, `[${dyn === 'computedIdentKey' ? 'KEYNAME' : 'keyOf()'}]: ${target.fnTyped ? 'helperFn' : 'V0'}`].join(', ')} }`;
+    defaultSrc = dyn === 'computedTemplateKey' ? `{ ${[...others, `[\`\${KEYNAME}\`]: ${target.fnTyped ? 'helperFn' : 'V0'}`].join(', ')} }` : dyn === 'computedGetterKey' ? `{ ${[...others, `get [KEYNAME]() { return ${target.fnTyped ? 'helperFn' : 'V0'}; }`].join(', ')} }` : `{ ${[...others, `[${dyn === 'computedIdentKey' ? 'KEYNAME' : 'keyOf()'}]: ${target.fnTyped ? 'helperFn' : 'V0'}`].join(', ')} }`;
     target.hasDefault = true;
   }
   feat.push(`dyn:${dyn}`);
-  const setupForm = rng.pick(['arrow', 'function']);
+  const setupForm = rng.pick(['arrow', 'function', 'arrow', 'function', 'asyncArrow', 'asyncFunction']);
   const param = `props: { ${typeMembers.join('; ')} } = ${defaultSrc}`;
-  const setup = setupForm === 'arrow' ? `(${param}) => () => null` : `function (${param}) { return () => null; }`;
+  // (an async setup is legal; the defaults it is written with are still plain values)
+  const setup = setupForm === 'arrow' ? `(${param}) => () => null` : setupForm === 'asyncArrow' ? `async (${param}) => () => null` : setupForm === 'asyncFunction' ? `async function (${param}) { return () => null; }` : `function (${param}) { return () => null; }`;
   if (usesLate) lateDecls.push(...LATE_DECLS);
   const src = `import { defineComponent } from "vue";\n${decls.join('\n')}\nexport const Comp = defineComponent(${setup});\n${lateDecls.join('\n')}\nexport const EXP = () => (${defaultSrc});\n`;
   return { src, spec, feature: [...new Set(feat)].sort().join('+') + `|n=${nProps}|${setupForm}`, dyn };
@@ -126,7 +127,7 @@ export function* generate({ tier, seed }) {
   for (let i = 0; i < (tier === 'quick' ? 300 : 5000); i++) {
     const k = 2 + rng.int(2);
     const picks = Array.from({ length: k }, () => rng.pick(DEF));
-    const decl = rng.pick(['interface Props { size?: number; label?: string; flag?: boolean }', 'type Props = { size?: number; label?: string; flag?: boolean };', 'interface Base { size?: number }\ninterface Props extends Base { label?: string; flag?: boolean }']);
+    const decl = rng.pick(['interface Props { size?: number; label?: string; flag?: boolean }', 'type Props = { size?: number; label?: string; flag?: boolean };', 'interface Base { size?: number }\ninterface Props extends Base { label?: string; flag?: boolean }', "type Props = { size?: number } & { 'size'?: number; label?: string; flag?: boolean };", "interface Base { 'label'?: string }\ntype Props = Base & { size?: number; label?: string; flag?: boolean };"]);
     const L = ['import { defineComponent } from "vue";', 'const N0 = 3;', 'const S0 = "s-zero";', 'const DYN0 = { size: 77 };', decl];
     picks.forEach((d, j) => L.push(`export const C${j} = defineComponent(${rng.bool() ? `(props: Props${d ? ' = ' + d : ''}) => () => null` : `function (props: Props${d ? ' = ' + d : ''}) { return () => null; }`});`));
     L.push(`export const EXP = [${picks.map((d) => `() => (${d ?? '{}'})`).join(', ')}];`);
